@@ -341,6 +341,9 @@ SCENARIOS = {
     'direct-direct-same-id': [[('import_direct', 'K1', 'good')], [('import_direct', 'K1', 'good2')]],
     'add-add-add': [[('add_node', 'g', 'x')], [('add_node', 'g', 'y')], [('add_node', 'h', 'z')]],
     'import-import-add': [[('import', 'K1', 'good')], [('import', 'K2', 'good')], [('add_node', 'g', 'x')]],
+    # two threads create the first nodes of a graph id nobody has used before
+    'newid-add-add': [[('add_node', 'NEW', 'x')], [('add_node', 'NEW', 'y')]],
+    'newid-exists-import': [[('exists', 'NEW')], [('import', 'NEW', 'good')]],
     # everything is deleted while another thread imports a graph and creates a node in it
     'delall-import-blank': [[('del_all',)], [('import', 'K1', 'good'), ('blank', 'K1', 'x')]],
     # first use: no store exists yet in the process; each thread builds its own importer (which builds or finds the store)
@@ -349,7 +352,7 @@ SCENARIOS = {
 }
 QUICK_SCEN = ['add-add-same-graph', 'add-add-other-graph', 'import-import-fresh', 'import-add', 'import-import-same-id',
               'add2-add', 'import-extract', 'blank-extract', 'blank-blank', 'direct-direct', 'direct-blank', 'direct-import',
-              'first-use-import-import', 'delall-import-blank']
+              'first-use-import-import', 'delall-import-blank', 'newid-exists-import']
 
 
 class Harness:
@@ -460,6 +463,8 @@ class Harness:
             self.store().add_graph_direct(op[1], g)
         elif k == 'extract':
             self.store().extract_graph(op[1])
+        elif k == 'exists':
+            self.graph(op[1]).graph_exists()
         elif k == 'del_all':
             self.store().del_all_graphs()
         elif k == 'first_import':
